@@ -47,7 +47,37 @@ func newOpGen(t *rapid.T, f *family) *opGen {
 	return g
 }
 
-func (g *opGen) draw(n int, label string) int { return rapid.IntRange(0, n-1).Draw(g.t, label) }
+func (g *opGen) draw(n int, label string) int { return uniform(g.t, n, label) }
+
+var boolGen = rapid.Bool()
+
+// uniform draws an integer in [0,n) uniformly. rapid's integer generators are deliberately
+// biased towards small magnitudes, which would distort every weight table of the generators;
+// fair bits (rapid.Bool) with rejection are uniform, and still shrink towards 0.
+func uniform(t *rapid.T, n int, label string) int {
+	if n <= 1 {
+		return 0
+	}
+	bits := 0
+	for 1<<bits < n {
+		bits++
+	}
+	for try := 0; ; try++ {
+		v := 0
+		for i := 0; i < bits; i++ {
+			v <<= 1
+			if boolGen.Draw(t, label) {
+				v |= 1
+			}
+		}
+		if v < n {
+			return v
+		}
+		if try > 64 {
+			return v % n
+		}
+	}
+}
 
 func (g *opGen) operation() string {
 	body := g.selSet("Query", 1, 0, true)
@@ -163,7 +193,9 @@ func (g *opGen) targetOf(name string) string {
 }
 
 func (g *opGen) pickKind(depth int) int {
-	if depth < maxOpDepth && g.nodes+2 < maxOpNodes && g.draw(100, "composite") < 38 {
+	// composite fields are likelier near the root so that most trees have some depth
+	p := []int{0, 55, 50, 45, 40, 35, 0}[depth]
+	if depth < maxOpDepth && g.nodes+2 < maxOpNodes && g.draw(100, "composite") < p {
 		return kObject + g.draw(3, "ckind")
 	}
 	return g.draw(kObject, "lkind")
